@@ -581,15 +581,64 @@ def hx(s):
     return "-" if not b else b.hex()
 
 
+def unit_install(case, ui):
+    """how unit ui's grammar is installed: "string" (decoder_set_jsgf_string) | "file" (decoder_set_jsgf_file) |
+    "config" (jsgf= / fsg= key of the configuration handed to decoder_init; first unit only) | "object"
+    (fsg_model_readfile + decoder_set_fsg) | "align" (decoder_set_align_text)"""
+    u = case["units"][ui]
+    k = u["grammar"]["kind"]
+    inst = u.get("install")
+    if k == "align":
+        return "align"
+    if inst == "config" and ui == 0:
+        return "config"
+    if k == "fsg":
+        return "object"
+    return "file" if inst == "file" else "string"
+
+
+def toprule_plan(case):
+    """toprule in force when each unit's grammar is installed: the configuration's value until a unit changes it
+    (key "toprule" in the unit: a name, or None = unset again)"""
+    cur, out = case["config"].get("toprule"), []
+    for u in case["units"]:
+        if "toprule" in u:
+            cur = u["toprule"]
+        out.append(cur)
+    return out
+
+
 def case_ops(case, scratch, tag):
-    ops = ["newdec loglevel=FATAL " + " ".join(f"{k}={str(v).replace('@DATA', str(DATA))}" for k, v in sorted(case["config"].items()))]
+    cfg = dict(case["config"])
+    tops = toprule_plan(case)
+    if case["units"] and unit_install(case, 0) == "config":
+        g0 = case["units"][0]["grammar"]
+        p0 = scratch / (f"{tag}-u0." + ("gram" if g0["kind"] == "jsgf" else "fsg"))
+        p0.write_bytes(g0["text"].encode())
+        cfg["jsgf" if g0["kind"] == "jsgf" else "fsg"] = str(p0)
+        if tops[0] is not None:
+            cfg["toprule"] = tops[0]
+        else:
+            cfg.pop("toprule", None)
+    ops = ["newdec loglevel=FATAL " + " ".join(f"{k}={str(v).replace('@DATA', str(DATA))}" for k, v in sorted(cfg.items()))]
+    cur_top = cfg.get("toprule")
     for neww, like in case.get("addwords", []):      # decoder_add_word(new, pronunciation of `like`)
         ops.append(f"addlike {hx(neww)} {hx(like)}")
     for ui, u in enumerate(case["units"]):
         g = u["grammar"]
-        if g["kind"] == "jsgf":
+        inst = unit_install(case, ui)
+        if inst != "config" and tops[ui] != cur_top:
+            ops.append("setcfg toprule " + ("-" if tops[ui] is None else hx(tops[ui])))
+            cur_top = tops[ui]
+        if inst == "config":
+            pass                                    # installed by decoder_init
+        elif inst == "string":
             ops.append("jsgf " + hx(g["text"]))
-        elif g["kind"] == "align":
+        elif inst == "file":
+            p = scratch / f"{tag}-u{ui}.gram"
+            p.write_bytes(g["text"].encode())
+            ops.append(f"jsgffile {p}")
+        elif inst == "align":
             ops.append("align " + hx(g["text"]))
         else:
             p = scratch / f"{tag}-u{ui}.fsg"
@@ -727,6 +776,8 @@ def parse_driver(out):
             cur = None
         elif w[1] == "X":
             cur["X"].append(w[2:])
+        elif w[1] == "jrule":
+            cur.setdefault("jrules", []).append(w[2:])
         else:
             cur[w[1]] = w[2:]
     return blocks
@@ -880,6 +931,50 @@ def private_harnesses(scratch):
     return out[0]
 
 
+def judge_jsgf_text(blk, drv, unit, unit_rules, info):
+    """C01 on the JSGF TEXT: the reported hypothesis and segment words must be accepted (final) / label a path from the
+    start (partial) of the rule the configuration names (toprule) — reference automaton built by the Lean model of C05
+    from the text.  With toprule unset and several public rules the library's pick is unspecified (hash order): some
+    ONE public rule must accept every result obtained under that installation."""
+    js = drv.get("jsgf")
+    if not js:
+        return []
+    info["jsgf_text_oracle"] = "skipped"
+    if js[0] != "1":
+        return []                                  # the model's text front end does not take this text (C05's subject)
+    H = [l.split() for l in blk if l.startswith("H ")]
+    X = [l for l in blk if l.startswith("X ")]
+    has_h = bool(H) and H[0][1] != "null"
+    final = blk[0].split()[3] == "1"
+    what = "a sentence of" if final else "the labels of a path leaving the start state of"
+    rules = drv.get("jrules", [])
+    if js[1] == "0":
+        return [("a JSGF grammar was installed although the configured toprule names no rule of the text", True,
+                 {"hyp": unhex(H[0][1]) if H else None})]
+    if any(r[3] != "1" for r in rules) or not rules:
+        return []                                  # rule automaton not finite within the exploration bound: no verdict
+    info["jsgf_text_oracle"] = "judged"
+
+    def ok(r):
+        return (not has_h or r[4] == "1") and (not X or r[5] == "1")
+    if js[1] == "1":
+        r = rules[0]
+        if not ok(r):
+            return [(f"result is not {what} the rule the configuration names (toprule), by the JSGF text", True,
+                     {"rule": unhex(r[1]), "hyp": unhex(H[0][1]) if has_h else None,
+                      "segments": [unhex(l.split()[2]) for l in X], "verdict_hyp": r[4], "verdict_seg": r[5]})]
+        return []
+    good = {r[1] for r in rules if ok(r)}
+    prev = unit_rules.get(unit)
+    now = good if prev is None else (prev & good)
+    unit_rules[unit] = now
+    if not now:
+        return [(f"results under one installation are not {what} any single public rule of the JSGF text", True,
+                 {"public_rules": [unhex(r[1]) for r in rules], "accepting_this_result": sorted(unhex(x) for x in good),
+                  "hyp": unhex(H[0][1]) if has_h else None, "segments": [unhex(l.split()[2]) for l in X]})]
+    return []
+
+
 def run_case(binp, case, scratch, tag, nfoff):
     """-> dict(ok, problems1, problems3, infos, crash, accounting)"""
     ops = case_ops(case, scratch, tag)
@@ -903,18 +998,40 @@ def run_case(binp, case, scratch, tag, nfoff):
         last = next((l for l in reversed(out.split("\n")) if l.startswith("> ")), "?")
         res["crash"] = {"exit_code": rc, "during": last, "stderr_tail": err[-1800:]}
     # the loaded grammar of an FSG FILE is read from its text here, independently of the library's reader
-    gi, override, dumps = -1, None, []
+    # … and the reference of a JSGF text is the rule the CONFIGURATION names, compiled by the Lean model of C05 in
+    # the driver (lines J = text, JT = toprule), whatever route installed the text and whatever the decoder activated
+    gi, override, jref, dumps, dump_unit = -1, None, None, [], []
+    tops = toprule_plan(case)
+    config_first = bool(case["units"]) and unit_install(case, 0) == "config"
+
+    def installed(gidx):
+        g = case["units"][gidx]["grammar"] if gidx < len(case["units"]) else None
+        return (g["text"] if g and g["kind"] == "fsg" else None,
+                (g["text"], tops[gidx]) if g and g["kind"] == "jsgf" else None)
+    active_unit = None
     for e in ev:
-        if e[0] == "cmd" and e[1] in ("jsgf", "fsgfile", "align"):
+        if e[0] == "cmd" and e[1] == "newdec" and config_first:
+            gi += 1
+            if e[2] is not None and e[2][-1] == "1":
+                override, jref = installed(gi)
+                active_unit = gi
+                res["loaded"].append(True)
+            else:
+                res["loaded"].append(False)
+                res["rejects"] += 1
+        elif e[0] == "cmd" and e[1] in ("jsgf", "jsgffile", "fsgfile", "align"):
             gi += 1
             if e[2] is not None and e[2][-1] == "0":
-                g = case["units"][gi]["grammar"] if gi < len(case["units"]) else None
-                override = g["text"] if g and g["kind"] == "fsg" else None
+                override, jref = installed(gi)
+                active_unit = gi
         elif e[0] == "dump":
             blk = e[2]
             if override is not None and blk and blk[0].startswith("D begin"):
                 blk = [blk[0]] + loaded_block_from_text(override, blk) + [l for l in blk[1:] if not l.startswith(("GF ", "GW ", "GA "))]
+            if jref is not None and blk and blk[0].startswith("D begin"):
+                blk = [blk[0], "J " + hx(jref[0]), "JT " + ("-" if jref[1] is None else hx(jref[1]))] + blk[1:]
             dumps.append(("dump", e[1], blk))
+            dump_unit.append(active_unit)
     if dumps:
         text = "\n".join("\n".join(e[2]) for e in dumps) + "\n"
         rc2, dout, derr = run_driver(text)
@@ -923,8 +1040,10 @@ def run_case(binp, case, scratch, tag, nfoff):
             res["p1"].append(("model driver failed", False, {"rc": rc2, "stderr": derr[-500:], "blocks": len(dblocks), "dumps": len(dumps)}))
             res["p3"].append(res["p1"][-1])
             dblocks = []
-        for e, d in zip(dumps, dblocks):
+        unit_rules = {}       # unit -> set of public rules that accept every result so far (toprule unset)
+        for (e, d), du in zip(zip(dumps, dblocks), dump_unit):
             p1, p3, info = judge_dump(e[2], d, nfoff)
+            p1 += judge_jsgf_text(e[2], d, du, unit_rules, info)
             info["tag"] = e[1]
             res["infos"].append(info)
             res["p1"] += [(k, v, dict(det, dump=e[1])) for k, v, det in p1]
@@ -936,7 +1055,7 @@ def run_case(binp, case, scratch, tag, nfoff):
         if e[0] != "cmd" or e[2] is None:
             continue
         name, rep = e[1], e[2]
-        if name in ("jsgf", "fsgfile", "align"):
+        if name in ("jsgf", "jsgffile", "fsgfile", "align"):
             ok = rep[-1] == "0"
             res["loaded"].append(ok)
             grammar_ok = grammar_ok or ok
